@@ -52,12 +52,12 @@ Fixpoint run_pre (st : dstate) (l : list pre) (w : bool) : option outcome * bool
   | Placeholder :: r => run_pre st r w
   end.
 
-(* possible results of the terminal (database access inside a new session may run the query or be refused by a
-   later cross-session check; which one depends on data the model does not see) *)
+(* possible results of the terminal (database access inside a new session may run the query, be refused by a later
+   cross-session check, or find nothing to do and go on; which one depends on data the model does not see) *)
 Definition run_term (st : dstate) (t : term) (w : bool) : list (outcome * bool) :=
   match t with
   | TGuard => [(OSessionOver, w)]
-  | TDb => if in_session st then [(ORanQuery, true); (OTxError, w)] else [(OTxError, w)]
+  | TDb => if in_session st then [(ORanQuery, true); (OTxError, w); (OValue, w)] else [(OTxError, w)]
   | TAssert => [(OAssertion, w)]
   | TReturn => [(OValue, w)]
   | TRaiseDeleted => [(ODeleted, w)]
